@@ -147,11 +147,20 @@ def build(blocks, *, block_size, sector_size=512, disk_size, has_parent=False, l
     return vf, {"data_base": data_base_mb * MB, "cr": cr, "nent": nent, "sb_pos": sb_pos}
 
 
-def expand(img, k):
-    """Scale embedding: abstract block -> k consecutive real blocks with consecutive placement."""
+def expand(img, k, stale=False):
+    """Scale embedding: abstract block -> k consecutive real blocks with consecutive placement.
+    stale=True: blocks in the undefined / zero / unmapped states keep a stale file offset that points at stored data
+    (the format leaves FileOffsetMB of such entries unspecified; TRIM leaves the old offset behind)."""
     out = []
+    used = [e["p"] for e in img["bat"].values() if e["st"] in (ST_FULL, ST_PARTIAL)]
+    spare = used[0] if used else 0
     for b in range(img["n"]):
         e = img["bat"][b]
         for j in range(k):
-            out.append((e["st"], e["p"] * k + j if e["st"] in (ST_FULL, ST_PARTIAL) else None))
+            if e["st"] in (ST_FULL, ST_PARTIAL):
+                out.append((e["st"], e["p"] * k + j))
+            elif stale and e["st"] in (ST_UNDEFINED, ST_ZERO, ST_UNMAPPED):
+                out.append((e["st"], spare * k + j))
+            else:
+                out.append((e["st"], None))
     return out
